@@ -85,6 +85,8 @@ def make_wave(kind, shape, rng, cdt):
     elif kind == "plane":
         x, y = np.meshgrid(np.arange(n), np.arange(m), indexing="ij")
         a = np.exp(2j * np.pi * (2 * x / n + 1 * y / m)) * (0.7 + 0.2j)
+    elif kind == "zero":
+        a = np.zeros(shape, complex)
     else:
         a = np.zeros(shape, complex)
         a[n // 3, m // 2] = 1.5 - 0.5j
@@ -162,15 +164,17 @@ def proj_event(c, seed):
     shape = tuple(c["shape"])
     v = c["variant"]
     ev = {"k": "proj", "case": c, "raised": False, "double": bool(c["double"]), "amp_ppb": 0, "phase_ppb": 0, "idem_ppb": 0, "sse_ppb": 0,
-          "at_truth": c["amp"] == "own"}
+          "at_truth": c["amp"] == "own" and c["wave"] != "zero", "finite": True}
     try:
         with warnings.catch_warnings():
             warnings.simplefilter("ignore")
+            zero = c["wave"] == "zero"
             if v in ("sim", "sim_warmup"):
-                waves = np.stack([make_wave(c["wave"], shape, rng, cdt), make_wave("random", shape, rng, cdt)])
+                waves = np.stack([make_wave(c["wave"], shape, rng, cdt), make_wave("zero" if zero else "random", shape, rng, cdt)])
                 amp = np.stack([make_amp(c["amp"], waves[0], rng, rdt), make_amp(c["amp"], waves[1], rng, rdt)])
             elif v == "mixed":
-                waves = np.stack([make_wave(c["wave"], shape, rng, cdt), 0.5 * make_wave("random", shape, rng, cdt), 0.2 * make_wave("random", shape, rng, cdt)])
+                waves = np.stack([make_wave(c["wave"], shape, rng, cdt), 0.5 * make_wave("zero" if zero else "random", shape, rng, cdt),
+                                  0.2 * make_wave("zero" if zero else "random", shape, rng, cdt)])
                 amp = make_amp(c["amp"], waves, rng, rdt)
             elif v == "ms":
                 waves = np.stack([make_wave("random", shape, rng, cdt), make_wave(c["wave"], shape, rng, cdt)])
@@ -178,8 +182,11 @@ def proj_event(c, seed):
             else:
                 waves = make_wave(c["wave"], shape, rng, cdt)
                 amp = make_amp(c["amp"], waves, rng, rdt)
+            if zero and c["amp"] == "own":
+                amp = make_amp("random", waves if v not in ("ms",) else waves[-1], rng, rdt) if v not in ("sim", "sim_warmup") else \
+                    np.stack([make_amp("random", waves[0], rng, rdt), make_amp("random", waves[1], rng, rdt)])
             out, sse = _proj_call(v, waves.copy(), amp.copy())
-            a_err, p_err = _contract(v, waves, amp, out)
+            a_err, p_err = (0.0, 0.0) if zero else _contract(v, waves, amp, out)
             if v == "ms":
                 again_in = np.stack([waves[0], out[-1]])
             elif v == "sim_warmup":
@@ -190,6 +197,7 @@ def proj_event(c, seed):
             sel = (lambda x: x[-1]) if v == "ms" else (lambda x: x)
             scale = max(float(np.abs(sel(out)).max()), 1e-30)
             ev["idem_ppb"] = ppb(float(np.abs(sel(out2).astype(np.complex128) - sel(out).astype(np.complex128)).max()) / scale)
+            ev["finite"] = bool(np.isfinite(sel(out)).all() and np.isfinite(sel(out2)).all())
             ev["amp_ppb"], ev["phase_ppb"], ev["sse_ppb"] = ppb(a_err), ppb(p_err), ppb(abs(sse))
     except Exception as ex:
         ev["raised"] = True
@@ -425,7 +433,7 @@ def judge(ctx: Ctx, traces):
 
 def self_test(ctx: Ctx):
     q = lambda a, b=1: [a, b]
-    proj = {"k": "proj", "raised": False, "double": True, "amp_ppb": 3, "phase_ppb": 10, "idem_ppb": 0, "sse_ppb": 0, "at_truth": True}
+    proj = {"k": "proj", "raised": False, "double": True, "amp_ppb": 3, "phase_ppb": 10, "idem_ppb": 0, "sse_ppb": 0, "at_truth": True, "finite": True}
     upd = {"k": "update", "raised": False, "double": False, "obj_ppb": 400, "probe_ppb": 12, "sse_ppb": 0}
     pos = {"k": "positions", "raised": False, "explicit": True, "pin": [[q(0), q(0)], [q(1), q(2)], [q(3), q(1)]], "sampling": [q(1, 2), q(1, 2)],
            "rot": "none", "nx": 0, "ny": 0, "step": [q(1), q(1)], "count": 3, "pout_c": [[400, 400], [600, 800], [1000, 600]]}
